@@ -320,6 +320,17 @@ def _check_quote(case):
             return {'observed': f'unquote_str({q!r}) raised {type(ex).__name__}', 'required': f'{s!r}', 'class': 'raise'}
         if got != s:
             return {'observed': f'unquote_str({q!r}) = {got!r}', 'required': f'{s!r}', 'class': 'changed'}
+    # the same text between triple quotes (quotes and backslashes escaped, line feeds as they are)
+    for qq in ("'''", '"""'):
+        q = qq + s.replace('\\', '\\\\').replace(qq[0], '\\' + qq[0]) + qq
+        if not cp.is_quoted(q):
+            return {'observed': f'is_quoted({q!r}) is False', 'required': 'every quoted string is recognised as quoted', 'class': 'not-quoted-triple'}
+        try:
+            got = cp.unquote_str(q)
+        except BaseException as ex:   # noqa
+            return {'observed': f'unquote_str({q!r}) raised {type(ex).__name__}', 'required': f'{s!r}', 'class': 'raise-triple'}
+        if got != s:
+            return {'observed': f'unquote_str({q!r}) = {got!r}', 'required': f'{s!r}', 'class': 'changed-triple'}
     # unquoted text is left alone
     if not (s[:1] in ('"', "'") and s[-1:] == s[:1] and len(s) > 1):
         if not cp.is_quoted(s) and cp.unquote_str(s) != s:
